@@ -502,7 +502,7 @@ def generate(ctx, shard=0, nshards=1):
             pred(ctx, 'distance_coincident_zero', [a, f, om, l1, p1, l2, p2], 'distance_coincident_zero/' + k)
         if k == 'equatorial' and abs(abs(l1 - l2) - 180.0) > 1e-9:
             pred(ctx, 'distance_equator', [a, f, om, l1, l2], 'distance_equator/' + name)
-        if k == 'same_meridian' and p1 != p2:
+        if k == 'same_meridian' and p1 != p2 and (f < 0.0099 or budget(ctx, 'f>0.0099', 60)):
             pred(ctx, 'distance_meridian_arc', [a, f, om, l1, p1, p2], 'distance_meridian_arc/' + name)
         if f <= 0.0034 and k not in ('coincident', 'coincident_turn', 'coincident_pole'):
             pred(ctx, 'distance_great_circle', [a, f, om, l1, p1, l2, p2], 'distance_great_circle/' + k)
@@ -516,8 +516,9 @@ def generate(ctx, shard=0, nshards=1):
         dec = gen_lat(rng)
         pc_tie(ra, dec, obs, dist, ha, h, 'parallax_correction')
         cap = polar_cap_flag(dec, dist, h)
-        pred(ctx, 'parallax_equatorial_bound', [ra, dec, obs, dist, ha, h, cap],
-             'parallax_equatorial_bound' + ('/polar_cap' if cap else ''))
+        if not cap or budget(ctx, 'polar_cap', 60):
+            pred(ctx, 'parallax_equatorial_bound', [ra, dec, obs, dist, ha, h, cap],
+                 'parallax_equatorial_bound' + ('/polar_cap' if cap else ''))
         lon = rng.choice([0.0, 90.0, 180.0, 270.0, rng.uniform(0, 360), rng.uniform(0, 360)])
         lat = rng.choice([0.0, rng.uniform(-90, 90), rng.uniform(-10, 10), rng.uniform(-1, 1) * 10 ** rng.uniform(-9, 0)])
         if abs(lat) > 89.9:          # the ecliptic pole: topocentric longitude is arbitrary, the formulas divide by n ~ 0
